@@ -126,6 +126,18 @@ def run(ctx):
         spec = {"format": "fb", "compression": "", "eps": 1, "sessions": [{"kind": "filler", "sub": [], "reopen": False, "ops": [Wr] * nsh}]}
         jobs.append({"dataset": spec, "requests": [{"iface": "sync", "split": 0, "shuffle": 0, "repeat": False}] +
                      [{"iface": "rust", "split": 0, "shuffle": 0, "repeat": False, "file_parallelism": fp} for fp in (1, 2, 3, 4, 5)]})
+    # several Rust readers alive at once in one process (A created, B created, A runs to its end, C created, B and C run to their ends):
+    # each pass must still be the python pass
+    spec = {"format": "fb", "compression": "LZ4", "eps": 2, "sessions": [{"kind": "filler", "sub": [], "reopen": False, "ops": [Wr] * 7}]}
+    st3 = [{"split": 0, "repeat": False, "shuffle": 0, "file_parallelism": fp} for fp in (2, 1, 3)]
+    jobs.append({"dataset": spec, "requests": [{"iface": "sync", "split": 0, "shuffle": 0, "repeat": False},
+                                               {"iface": "rust", "split": 0, "shuffle": 0, "repeat": False, "file_parallelism": 2,
+                                                "multi": {"streams": st3, "ops": [["P", 0], ["P", 1]] + [["P", 0]] * 9 + [["P", 2], ["P", 1]] * 9}}]})
+    # many shards per thread under compression: a worker decodes several compressed shards one after the other
+    for comp in ("LZ4", "GZIP"):
+        spec = {"format": "fb", "compression": comp, "eps": 1, "sessions": [{"kind": "filler", "sub": [], "reopen": False, "ops": [Wr] * 7}]}
+        jobs.append({"dataset": spec, "requests": [{"iface": "sync", "split": 0, "shuffle": 0, "repeat": False}] +
+                     [{"iface": "rust", "split": 0, "shuffle": 0, "repeat": False, "file_parallelism": fp} for fp in (1, 2, 3)]})
     if not ctx.quick:
         # a consumer that pauses longer than any plausible idle timeout of the reader threads
         spec = iterlib.gen_dataset(rng, fmt="fb", min_shards=6, max_sessions=1)
@@ -146,6 +158,14 @@ def run(ctx):
                 ctx.report("rust-reader-hangs", f"rust {q}: no end within the watchdog (early drop or iteration)", {"mode": "dataset", "job": one})
             elif o.get("error"):
                 ctx.report("rust-reader-error", f"rust {q}: {o['error']}", {"mode": "dataset", "job": one})
+            elif q.get("multi"):
+                for si in range(len(q["multi"]["streams"])):
+                    got = [a for (k, i), a in zip(q["multi"]["ops"], o["out"]) if i == si and k == "P"]
+                    vals = [a for a in got if not isinstance(a, str)]
+                    errs = [a for a in got if isinstance(a, str) and a.startswith("error")]
+                    if vals != py or errs:
+                        ctx.report("rust-readers-interfere", f"three Rust readers alive at once: pass {si} returned {vals[:12]}{' then ' + errs[0] if errs else ''} vs python {py[:12]}", {"mode": "dataset", "job": one})
+                        break
             elif q.get("take"):
                 if o["out"] != py[: q["take"]]:
                     ctx.report("rust-differs-from-python", f"rust first {q['take']} examples {o['out']} vs python {py[:q['take']]}", {"mode": "dataset", "job": one})
@@ -194,6 +214,12 @@ def replay(ctx, rp):
         q = r["job"]["requests"][1]
         if b.get("hang") or b.get("error"):
             return False
+        if q.get("multi"):
+            ok = True
+            for si in range(len(q["multi"]["streams"])):
+                got = [x for (k, i), x in zip(q["multi"]["ops"], b["out"]) if i == si and k == "P"]
+                ok = ok and [x for x in got if not isinstance(x, str)] == a["out"] and not any(isinstance(x, str) and x.startswith("error") for x in got)
+            return ok
         return b["out"] == a["out"][: q["take"]] if q.get("take") else (b["out"] == a["out"] if not q["shuffle"] else sorted(b["out"]) == sorted(a["out"]))
     print("no concrete input in this replay file:", r.get("unchecked"))
     return False
